@@ -1677,6 +1677,25 @@ def merge_fn(toks, opts, sections, fired):
             e += 1
         add(c1 + 1, bracket(" -> " + " ".join(l.strip() for l in lines[1:]) + " { "))
         add(e, bracket(" }"))
+    # //@after_stmt k / //@before_stmt k : the k-th top-level statement of the body (positional: survives reordering)
+    if any(re.fullmatch(r"(after|before)_stmt \d+", k_) for k_ in sections):
+        tops = []
+        q = next_code(toks, he + 1)
+        while q < bc:
+            a_, b_ = stmt_bounds(toks, q)
+            tops.append((a_, b_))
+            q = next_code(toks, b_ + 1)
+        for key, text in sections.items():
+            m = re.fullmatch(r"(after|before)_stmt (\d+)", key)
+            if not m:
+                continue
+            k = int(m.group(2))
+            if k > len(tops):
+                raise ExtractError(f"lost anchor: {key} but the body has {len(tops)} statements")
+            if m.group(1) == "before":
+                add(tops[k - 1][0], bracket(text + "\n"))
+            else:
+                add(tops[k - 1][1] + 1, bracket("\n" + text + "\n"))
     if "pre" in sections:
         add(he + 1, bracket("\n" + sections["pre"] + "\n"))
     if "post" in sections:
@@ -1977,6 +1996,18 @@ def slice_fn(item, opts, fired):
         if len(hits) != 1:
             raise ExtractError(f"lost anchor: slice anchor {needle!r} matches {len(hits)} times")
         return stmt_bounds(item, ci[hits[0]])
+    if opts.get("from") == "@arm":
+        # to="<match arm pattern>#k": the statements of the block of the k-th match arm with that pattern
+        pat_txt, _, nth = opts["to"].partition("#")
+        pat = sig(lex(pat_txt)) + ["=>", "{"]
+        hits = [k for k in range(len(texts) - len(pat) + 1) if texts[k:k + len(pat)] == pat]
+        k = int(nth or "1")
+        if len(hits) < k:
+            raise ExtractError(f"lost anchor: match arm {pat_txt!r} occurs {len(hits)} times")
+        bo = ci[hits[k - 1] + len(pat) - 1]
+        be = match_close(item, bo)
+        fired["slice"] = 1
+        return synth(opts["header"] + " {") + item[bo + 1:be] + synth("}")
     a, _ = find(opts["from"])
     _, b = find(opts["to"])
     if b < a:
